@@ -788,8 +788,8 @@ func (f For) byteCode(srcsel int, fl flags.Pass, cr compResult) bytecode.Type {
 }
 
 func (i IndexAt) byteCode(srcsel int, fl flags.Pass, cr compResult) bytecode.Type {
-	ary := i.Ary.byteCode(1, fl.Data().Pass(), cr)
-	at := i.At.byteCode(0, fl.Data().Pass(), cr)
+	ary := i.Ary.byteCode(1, fl.Data().Pass(flags.WithOpDepth(0)), cr)
+	at := i.At.byteCode(0, fl.Data().Pass(flags.WithOpDepth(0)), cr)
 	instr := bytecode.New(bytecode.IX1) | ary | at
 
 	*cr.CS = append(*cr.CS, instr)
